@@ -26,6 +26,7 @@ import (
 	"io"
 	"math"
 
+	compact_time "github.com/kstenerud/go-compact-time"
 	"github.com/kstenerud/go-concise-encoding/ce/events"
 	"github.com/kstenerud/go-concise-encoding/configuration"
 	"github.com/kstenerud/go-concise-encoding/internal/common"
@@ -202,11 +203,11 @@ EOF:
 		case cbeTypeLocalReference:
 			eventReceiver.OnReferenceLocal(_this.reader.ReadIdentifier())
 		case cbeTypeDate:
-			eventReceiver.OnTime(_this.reader.ReadDate())
+			decodeTime(eventReceiver, _this.reader.ReadDate())
 		case cbeTypeTime:
-			eventReceiver.OnTime(_this.reader.ReadTime())
+			decodeTime(eventReceiver, _this.reader.ReadTime())
 		case cbeTypeTimestamp:
-			eventReceiver.OnTime(_this.reader.ReadTimestamp())
+			decodeTime(eventReceiver, _this.reader.ReadTimestamp())
 		default:
 			asSmallInt := int64(int8(cbeType))
 			if asSmallInt < cbeSmallIntMin || asSmallInt > cbeSmallIntMax {
@@ -289,6 +290,17 @@ func (_this *Decoder) decodePlane7f(eventReceiver events.DataEventReceiver) {
 		}
 		_this.decodeArray(arrayType, eventReceiver)
 	}
+}
+
+// The compact time "zero value" stands for an absent time: the encoders write
+// it as null, so it is read back as null (it has no time zone and cannot be
+// written as a time in either format).
+func decodeTime(eventReceiver events.DataEventReceiver, value compact_time.Time) {
+	if value.IsZeroValue() {
+		eventReceiver.OnNull()
+		return
+	}
+	eventReceiver.OnTime(value)
 }
 
 func (_this *Decoder) decodeArray(arrayType events.ArrayType, eventReceiver events.DataEventReceiver) {
